@@ -207,6 +207,7 @@ namespace {
             ex::execute(ex::with_stacksize(ex::thread_pool_scheduler{}, classes[t.cls]), [i] { task_body(i); });
             if ((i + 1) % wave == 0) pika::wait();
         }
+        while (g_finished < n) main_pause(3000000);
         sim_quiesce(3000000);
         pika::wait();
         for (int i = 0; i < n; i++)
